@@ -4,10 +4,13 @@ package main
 // then RefundManager.CheckAndMove) driven by an empty block executed with a non-"testing" situation.
 
 import (
+	"fmt"
+	"math"
 	"math/big"
 	"sort"
 	"strconv"
 	"strings"
+	"sync"
 	"time"
 
 	"com.tuntun.rangers/node/src/common"
@@ -19,14 +22,14 @@ import (
 
 // stubChain stands in for the group chain: the verify group of every block consists of the validators
 // registered through this harness.
-type stubChain struct{ w **World }
+type stubChain struct{}
 
 func (s stubChain) GetAvailableGroupsByMinerId(height uint64, minerId []byte) []*types.Group {
 	return nil
 }
 func (s stubChain) GetGroupById(id []byte) *types.Group {
 	g := &types.Group{Id: id}
-	for _, m := range (*s.w).miners {
+	for _, m := range getCurWorld().miners {
 		g.Members = append(g.Members, m.id)
 	}
 	return g
@@ -36,10 +39,23 @@ func (s stubChain) QueryBlockHeaderByHeight(height interface{}, cache bool) *typ
 	return nil
 }
 
-var curWorld *World
+var curWorldV *World
+var curWorldMu sync.Mutex
+
+func setCurWorld(w *World) {
+	curWorldMu.Lock()
+	curWorldV = w
+	curWorldMu.Unlock()
+}
+
+func getCurWorld() *World {
+	curWorldMu.Lock()
+	defer curWorldMu.Unlock()
+	return curWorldV
+}
 
 func initReward() {
-	sc := stubChain{w: &curWorld}
+	sc := stubChain{}
 	service.InitRewardCalculator(sc, sc, sc)
 }
 
@@ -69,7 +85,7 @@ func (w *World) escrowTotal() *big.Int {
 
 // After executes an empty block at height h with situation "fullverify".
 func (w *World) After(h uint64, castor []byte) (before, after, rewards *big.Int) {
-	curWorld = w
+	setCurWorld(w)
 	w.refreshFlags(h, h-1)
 	w.reopen()
 	before = w.Wealth()
@@ -99,6 +115,15 @@ func (w *World) After(h uint64, castor []byte) (before, after, rewards *big.Int)
 	parts := []string{"after", strconv.FormatUint(h, 10), strconv.Itoa(len(ents))}
 	for _, e := range ents {
 		parts = append(parts, strconv.FormatUint(e.h, 10), hexAddr(e.a), e.v.String())
+	}
+	// independent reference for "the scheduled block reward": 7.35M RPG * 0.92^epoch * 0.08 per epoch of 15 552 000 blocks;
+	// proposer + all-proposers + validators shares add up to 1, so one block never escrows more than that
+	{
+		total := 2100.0 * 10000 * 0.35 * math.Pow(0.92, float64(h/15552000)) * 0.08 / 15552000
+		limit, _ := new(big.Float).Mul(big.NewFloat(total*1.000001), new(big.Float).SetInt(oneRPG)).Int(nil)
+		if rewards.Cmp(limit) > 0 {
+			reportViolation("reward-exceeds-schedule", fmt.Sprintf("height %d: CalculateReward escrows %s wei, the schedule allows %s", h, rewards.String(), limit.String()), snapshotLines(w))
+		}
 	}
 	w.height = h
 	common.SetBlockHeight(h)
